@@ -47,4 +47,44 @@ theorem sig_c_softplus_inverse_eq (x β : ℝ) : sig_c_softplus_inverse x β = s
     | (simp only [sig_c_softplus_inverse, softplusInvT, neg_mul, neg_sub]; ring)
     | (simp only [sig_c_softplus_inverse, softplusInvT]; ring_nf)
 
+/-! `ConstraintsOp.forward` / `inverse`: the expression of each branch as it stands in the source (composed of the generated
+elementary maps) is the model's `constrainFwd` / `constrainInv` for the corresponding kind of bounds -/
+theorem constr_forward_eq (βs βp l u x : ℝ) :
+    constr_forward_both x l u βs = constrainFwd βs βp (.fin l) (.fin u) x ∧
+    constr_forward_lower x l βp = constrainFwd βs βp (.fin l) .none x ∧
+    constr_forward_upper x u βp = constrainFwd βs βp .none (.fin u) x ∧
+    constr_forward_none x = constrainFwd βs βp .none .none x := by
+  refine ⟨?_, ?_, ?_, ?_⟩
+  · first
+      | (simp only [constr_forward_both, constrainFwd, sig_c_sigmoid_eq]; done)
+      | (simp only [constr_forward_both, constrainFwd, sig_c_sigmoid_eq]; ring_nf)
+  · first
+      | (simp only [constr_forward_lower, constrainFwd, sig_c_softplus_eq]; done)
+      | (simp only [constr_forward_lower, constrainFwd, sig_c_softplus_eq]; ring_nf)
+  · first
+      | (simp only [constr_forward_upper, constrainFwd, sig_c_softplus_eq]; done)
+      | (simp only [constr_forward_upper, constrainFwd, sig_c_softplus_eq]; ring_nf)
+  · first
+      | rfl
+      | (simp only [constr_forward_none, constrainFwd]; done)
+
+theorem constr_inverse_eq (βs βp l u y : ℝ) :
+    constr_inverse_both y l u βs = constrainInv βs βp (.fin l) (.fin u) y ∧
+    constr_inverse_lower y l βp = constrainInv βs βp (.fin l) .none y ∧
+    constr_inverse_upper y u βp = constrainInv βs βp .none (.fin u) y ∧
+    constr_inverse_none y = constrainInv βs βp .none .none y := by
+  refine ⟨?_, ?_, ?_, ?_⟩
+  · first
+      | (simp only [constr_inverse_both, constrainInv, sig_c_sigmoid_inverse_eq]; done)
+      | (simp only [constr_inverse_both, constrainInv, sig_c_sigmoid_inverse_eq]; ring_nf)
+  · first
+      | (simp only [constr_inverse_lower, constrainInv, sig_c_softplus_inverse_eq]; done)
+      | (simp only [constr_inverse_lower, constrainInv, sig_c_softplus_inverse_eq]; ring_nf)
+  · first
+      | (simp only [constr_inverse_upper, constrainInv, sig_c_softplus_inverse_eq]; done)
+      | (simp only [constr_inverse_upper, constrainInv, sig_c_softplus_inverse_eq]; ring_nf)
+  · first
+      | rfl
+      | (simp only [constr_inverse_none, constrainInv]; done)
+
 end M.SrcL
